@@ -267,7 +267,7 @@ func (g *pg) structType(d int) string {
 			f = g.pick("fname", fieldNames) + strconv.Itoa(i) + " " + g.typ(d)
 		}
 		if g.n("tag", 0, 3) == 0 {
-			f += " " + g.pick("tagtext", []string{"`json:\"a\"`", "`json:\"name,omitempty\" xml:\"n\"`", "\"raw tag\"", "`db:\"x\" json:\"-\"`", "`a:\"b c\"`", "`yaml:\"q\\\"uote\"`"})
+			f += " " + g.pick("tagtext", []string{"`json:\"a\"`", "`json:\"name,omitempty\" xml:\"n\"`", "\"raw tag\"", "`db:\"x\" json:\"-\"`", "`a:\"b c\"`", "`yaml:\"q\\\"uote\"`", "`json:\"Ελλάδα\"`", "`k:\"色は匂へど\" é:\"ü\"`", "`json:\"tab\\there\" b:\"\"`", "`a:\"100%\" %:\"%d\"`", "`x:\"\u00a0\u2028\"`"})
 		}
 		fs = append(fs, f)
 	}
